@@ -23,7 +23,11 @@ RULE = ("cases: (i) scramble_number on batches of consecutive numbers around 2^k
         "of size 2..62; (iv) processes of 1..4 UniqueNumericIdGenerator / AlphaUniquifier objects with "
         "templates over {pid, context, index, literals, junk}, interleaved draws (hundreds to thousands each); "
         "(v) recipes through generate_data using unique_id, unique_alpha_code, UniqueId.unique_id, "
-        "UniqueId.NumericIdGenerator / AlphaCodeGenerator in small-id and big-id mode over several iterations. "
+        "UniqueId.NumericIdGenerator / AlphaCodeGenerator in small-id and big-id mode over several iterations; "
+        "(vi) processes that use a generator before and after > 128 other (key, numbits) pairs went through "
+        "mask_for_key (lru-cache eviction; observed masks must stay a function); (vii) recipes whose generators "
+        "live in hidden fields of a just_once object and are continued through continuation files in the same "
+        "process (distinctness over the union of all runs). "
         "non-trivial: a batch with >= 2 distinct accepted numbers, a process with a generator drawn >= 2 "
         "times, a recipe with >= 2 rows; distinct by case hash")
 TRUSTED = ["harness/c13.py: observation wrappers around scrambled_numbers.mask_for_key / .log and UniqueId.log "
@@ -248,6 +252,40 @@ def gen_separator_probe(randomize=True):
             "sample": {str(gi): [0, 1, 7, 8, 56, 57, 63, 64, 71] for gi in range(n)}}
 
 
+def gen_evict(rng, variant):
+    """a generator used before and after > 128 other (key, numbits) pairs went through mask_for_key"""
+    if variant == 0:
+        gens = [{"type": "num", "template": "index", "pid": 3, "randomize": True, "start": 1}]
+    elif variant == 1:
+        gens = [{"type": "num", "template": "context,index", "pid": None, "randomize": True, "start": 1},
+                {"type": "alpha", "template": "context,index", "pid": None, "alphabet": None, "min_chars": 4,
+                 "randomize_codes": True}]
+    else:
+        gens = [{"type": "num", "template": _template(rng, want_context=True), "pid": _pid(rng), "randomize": True,
+                 "start": 1} for _ in range(2)]
+    n1, n2 = rng.randint(1200, 2000), rng.randint(1200, 2000)
+    schedule = [[gi, n1] for gi in range(len(gens))] + [["flush", rng.randint(140, 400)]] + \
+               [[gi, n2] for gi in range(len(gens))]
+    sample = {str(gi): sorted(set(list(range(12)) + [n1 - 1, n1, n1 + 1, n1 + 7, n1 + n2 - 1] +
+                                  [rng.randrange(n1 + n2) for _ in range(10)])) for gi in range(len(gens))}
+    return {"kind": "gens", "gens": gens, "schedule": schedule, "sample": sample, "ctx0": _ctx0(rng)}
+
+
+def gen_registry(rng):
+    """numeric generators kept in hidden fields of a just_once object, drawn from by ordinary rows, the recipe
+    continued `iterations`-1 times through continuation files in the same process"""
+    nv = rng.randint(1, 3)
+    vars_ = [{"name": f"N{i}", "type": "num",
+              "template": rng.choice([None, None, _template(rng, want_context=True), "context,index"])}
+             for i in range(nv)]
+    fields = [v["name"] for v in vars_] + rng.choice([["unique_id"], ["unique_id", "UniqueId.unique_id"], []])
+    if rng.random() < 0.3:
+        fields.append(vars_[0]["name"])
+    return {"kind": "recipe", "registry": True, "big": rng.choice([None, False, False, True]),
+            "pid": rng.choice([None, None, 3, 4242]), "vars": vars_, "fields": fields,
+            "count": rng.randint(1, 5), "iterations": rng.randint(2, 4), "ctx0": _ctx0(rng)}
+
+
 def generate(rng, tier):
     q = tier == "quick"
     cases = list(gen_scramble_edges())
@@ -265,6 +303,10 @@ def generate(rng, tier):
         cases.append(gen_process(rng, tier, malformed=True))
     for _ in range(12 if q else 400):
         cases.append(gen_recipe(rng))
+    for i in range(3 if q else 40):
+        cases.append(gen_evict(rng, i % 3))
+    for _ in range(6 if q else 120):
+        cases.append(gen_registry(rng))
     return cases
 
 
@@ -440,7 +482,27 @@ def _run_process(case):
         values = [dict() for _ in objs]        # value -> first draw number
         dup_within = [None] * len(objs)
         bad_alpha = [None] * len(objs)
+        import snowfakery.utils.scrambled_numbers as sn
+        mask_tab, mask_changed = {}, None
+
+        def note_masks(events):
+            nonlocal mask_changed
+            for e in events:
+                if e[0] == "mask":
+                    old = mask_tab.setdefault((e[1], e[2]), e[3])
+                    if old != e[3] and mask_changed is None:
+                        mask_changed = [e[1], e[2], old, e[3]]
+
         for gi, n in case["schedule"]:
+            if gi == "flush":
+                # n distinct (key, numbits) pairs through scramble_number: more than the 128 entries that the
+                # lru cache of mask_for_key holds, so earlier masks are recomputed afterwards
+                i0 = len(ev)
+                for j in range(n):
+                    _call(sn.scramble_number, j % 10, 24 + j)
+                note_masks(ev[i0:])
+                del ev[i0:]
+                continue
             g = objs[gi]
             if g is None:
                 continue
@@ -466,6 +528,7 @@ def _run_process(case):
                 if k in sample:
                     r.update(obs1)
                     o["draws"].append(r)
+                note_masks(ev[i0:])
                 del ev[i0:]
                 if "ok" in r:
                     v = r["ok"]
@@ -493,7 +556,7 @@ def _run_process(case):
                 o["distinct"] = len(values[gi])
                 o["dup_within"] = dup_within[gi]
                 o["bad_alpha"] = bad_alpha[gi]
-        return {"gens": gens_obs, "cross": cross, "have": have}
+        return {"gens": gens_obs, "cross": cross, "have": have, "mask_changed": mask_changed}
 
 
 def recipe_text(case):
@@ -502,9 +565,15 @@ def recipe_text(case):
     # literal is replaced by that literal's value (finding C13-native-literal); only corpus cases ask for it.
     lines = (["- snowfakery_version: 3"] if case.get("native") else []) + \
         ["- plugin: snowfakery.standard_plugins.UniqueId"]
+    reg = bool(case.get("registry"))
+    if reg:
+        lines += ["- object: IdRegistry", "  nickname: Registry", "  just_once: true", "  fields:"]
     for v in case["vars"]:
-        lines.append(f"- var: {v['name']}")
-        lines.append("  value:")
+        if reg:
+            lines.append(f"    __{v['name']}:")
+        else:
+            lines.append(f"- var: {v['name']}")
+            lines.append("  value:")
         if v["type"] == "num":
             lines.append("    UniqueId.NumericIdGenerator:")
             if v["template"] is not None:
@@ -519,13 +588,29 @@ def recipe_text(case):
                 lines.append(f"      min_chars: {v['min_chars']}")
             if v["randomize_codes"] is not None:
                 lines.append(f"      randomize_codes: {'true' if v['randomize_codes'] else 'false'}")
+    if reg:   # generator definitions sit two levels deeper inside the registry object's field
+        fixed, inside = [], False
+        for ln in lines:
+            if ln.startswith("    __"):
+                inside = True
+                fixed.append(ln)
+            elif inside and ln.startswith("    "):
+                fixed.append("  " + ln)
+            else:
+                inside = inside and not ln.startswith("- ")
+                fixed.append(ln)
+        lines = fixed
     lines.append("- object: A")
     lines.append(f"  count: {case['count']}")
     lines.append("  fields:")
     for i, s in enumerate(case["fields"]):
-        expr = s if s in ("unique_id", "unique_alpha_code", "UniqueId.unique_id") else f"{s}.unique_id"
+        expr = s if s in ("unique_id", "unique_alpha_code", "UniqueId.unique_id") else \
+            (f"Registry.__{s}.unique_id" if reg else f"{s}.unique_id")
         lines.append(f"    f{i}: ${{{{{expr}}}}}")
     return "\n".join(lines) + "\n"
+
+
+_DELETE = object()
 
 
 def _run_recipe(case):
@@ -534,6 +619,7 @@ def _run_recipe(case):
     _set_ctx0(U, case)
     F = U.UniqueId.Functions
     created = []          # (type, kwargs, args, object)
+    restored = []         # (args, object): numeric generators re-created from a continuation file
     draws = {}            # id(obj) -> list of draw records
     patches = []
     instrumented = True
@@ -554,6 +640,19 @@ def _run_recipe(case):
             F.NumericIdGenerator, F.AlphaCodeGenerator = NumericIdGenerator, AlphaCodeGenerator
             patches.append((F, "NumericIdGenerator", orig_num))
             patches.append((F, "AlphaCodeGenerator", orig_alpha))
+            fc = U.UniqueNumericIdGenerator.__dict__.get("_from_continuation") or \
+                getattr(U.UniqueNumericIdGenerator, "_from_continuation", None)
+            if fc is not None:
+                had_own = "_from_continuation" in U.UniqueNumericIdGenerator.__dict__
+                raw_fc = U.UniqueNumericIdGenerator.__dict__.get("_from_continuation")
+                orig_fc = U.UniqueNumericIdGenerator._from_continuation     # bound classmethod
+
+                def _from_continuation(cls, args):
+                    r = orig_fc(args)
+                    restored.append((dict(args) if isinstance(args, dict) else None, r))
+                    return r
+                U.UniqueNumericIdGenerator._from_continuation = classmethod(_from_continuation)
+                patches.append((U.UniqueNumericIdGenerator, "_from_continuation", raw_fc if had_own else _DELETE))
             depth = [0]
             for cls in (U.UniqueNumericIdGenerator, U.AlphaUniquifier):
                 prop = cls.__dict__["unique_id"]
@@ -587,21 +686,40 @@ def _run_recipe(case):
                 opts["big_ids"] = "true" if case["big"] else "false"
             if case["pid"] is not None:
                 opts["pid"] = case["pid"]
-            out = io.StringIO()
             res = {}
             try:
-                generate_data(io.StringIO(recipe_text(case)), output_file=out, output_format="json",
-                              target_number=("A", case["count"] * case["iterations"]), plugin_options=opts)
-                rows = json.loads(out.getvalue())
                 nf = len(case["fields"])
-                res["rows"] = [[row.get(f"f{i}") for i in range(nf)] for row in rows if row.get("_table") == "A"]
+                text = recipe_text(case)
+                if case.get("registry"):
+                    # run, then continue iterations-1 times from the continuation file, all in this process
+                    res["rows"], cont = [], None
+                    for _run in range(case["iterations"]):
+                        out, nxt = io.StringIO(), io.StringIO()
+                        generate_data(io.StringIO(text), output_file=out, output_format="json", plugin_options=opts,
+                                      continuation_file=io.StringIO(cont) if cont else None,
+                                      generate_continuation_file=nxt)
+                        cont = nxt.getvalue()
+                        res["rows"] += [[row.get(f"f{i}") for i in range(nf)] for row in json.loads(out.getvalue())
+                                        if row.get("_table") == "A"]
+                else:
+                    out = io.StringIO()
+                    generate_data(io.StringIO(text), output_file=out, output_format="json",
+                                  target_number=("A", case["count"] * case["iterations"]), plugin_options=opts)
+                    rows = json.loads(out.getvalue())
+                    res["rows"] = [[row.get(f"f{i}") for i in range(nf)] for row in rows if row.get("_table") == "A"]
             except BaseException as e:  # noqa
                 if isinstance(e, C._CaseTimeout):
                     raise
                 res["err"] = C.canon_exc(e)
         finally:
             for obj, name, orig in patches:
-                setattr(obj, name, orig)
+                if orig is _DELETE:
+                    try:
+                        delattr(obj, name)
+                    except AttributeError:
+                        pass
+                else:
+                    setattr(obj, name, orig)
     gens = []
     if instrumented:
         for typ, kw, args, obj in created:
@@ -615,6 +733,12 @@ def _run_recipe(case):
                       "ndraws": len(draws.get(id(obj), []))})
             bp = [r["bpc"] for r in draws.get(id(obj), []) if r.get("bpc") is not None]
             o["bpc"] = bp[0] if bp else None
+            gens.append(o)
+        for args, obj in restored:
+            o = _gen_attrs(obj, "num")
+            simple = isinstance(args, dict) and all(isinstance(v, (str, int, bool, type(None))) for v in args.values())
+            o.update({"type": "num", "restored_args": args if simple else None,
+                      "draws": draws.get(id(obj), [])[:400], "ndraws": len(draws.get(id(obj), [])), "bpc": None})
             gens.append(o)
     res.update({"gens": gens, "instrumented": instrumented, "have": have})
     return res
@@ -798,6 +922,20 @@ def _gcase_factory(case, o, have):
             f"{_cz(mc)} {C.cbool(rc)} {_cz(o.get('bpc') or 0)} {dr}")
 
 
+def _gcase_restored(o, have):
+    """a numeric generator re-created from a continuation file: UniqueNumericIdGenerator(**state) with
+    state = {parts, min_chars, randomize, start} (no pid: the restored generator takes the default pid)"""
+    a = o.get("restored_args")
+    if not isinstance(a, dict) or set(a) - {"parts", "min_chars", "randomize", "start"}:
+        return None      # the persisted state has a different shape: nothing to compare against
+    if not isinstance(a.get("parts"), str) or not isinstance(a.get("randomize", True), bool) \
+            or not isinstance(a.get("start", 1), int):
+        return None
+    spec = {"type": "num", "template": a["parts"], "pid": None, "randomize": a.get("randomize", True),
+            "start": a.get("start", 1)}
+    return _gcase_direct(spec, dict(o, draws=o["draws"][:48]), have)
+
+
 def coq_case(case, obs):
     kind = case["kind"]
     have = obs.get("have", {})
@@ -847,6 +985,11 @@ def coq_case(case, obs):
             return None
         terms = []
         for o in obs["gens"]:
+            if "restored_args" in o:
+                t = _gcase_restored(o, have)
+                if t is not None:
+                    terms.append(t)
+                continue
             t = _gcase_factory(case, o, have)
             if t is not None:
                 terms.append(t)
@@ -1062,6 +1205,10 @@ def oracle(case, obs):
                     continue
             return (f"gens: generators {i} and {j} (template {si['template']!r}, different context numbers) both "
                     f"produced {v!r} (draws {ki} and {kj})")
+        if obs.get("mask_changed"):
+            k, nb, m1, m2 = obs["mask_changed"]
+            return (f"gens: mask_for_key({k},{nb}) returned {m1} and later {m2} in the same process: "
+                    f"scramble_number is no longer a function of its input (the injectivity argument needs it)")
         return None
     if kind == "recipe":
         other, k5, mangled, xshape = _recipe_failures(case, obs)
@@ -1132,6 +1279,7 @@ def stats(cases, obss):
     digits, minbits, outcomes = Counter(), Counter(), Counter()
     abc_sizes, tpl_parts, tpl_len, gen_types, draws = Counter(), Counter(), Counter(), Counter(), Counter()
     recipe_modes, recipe_rows, pid_kinds = Counter(), 0, Counter()
+    features = Counter()
     total_draws = total_numbers = 0
     for c, o in zip(cases, obss):
         if not isinstance(o, dict):
@@ -1150,6 +1298,8 @@ def stats(cases, obss):
             abc_sizes[len(c["alphabet"])] += 1
             outcomes["base:" + (o.get("ctor_err") or "ok")] += 1
         elif k == "gens" and "gens" in o:
+            if any(e[0] == "flush" for e in c["schedule"]):
+                features["process_with_mask_cache_flush"] += 1
             for spec, g in zip(c["gens"], o["gens"]):
                 gen_types[spec["type"]] += 1
                 pid_kinds["default" if spec["pid"] is None else "negative" if spec["pid"] < 0 else "given"] += 1
@@ -1169,13 +1319,20 @@ def stats(cases, obss):
                         abc_sizes[len(spec["alphabet"] or DEFAULT_ALPHABET)] += 1
         elif k == "recipe":
             recipe_modes["big" if c["big"] else "small"] += 1
+            if c.get("registry"):
+                features["recipe_with_registry_and_continuations"] += 1
+                features["continuation_runs"] += c["iterations"] - 1
+                features["generators_restored_from_continuation"] += sum(
+                    1 for g in o.get("gens", []) if "restored_args" in g)
+            if c.get("native"):
+                features["recipe_native_types"] += 1
             recipe_rows += len(o.get("rows", []))
             outcomes["recipe:" + (o.get("err") or "ok")] += 1
     return {"kinds": dict(kinds), "scramble_numbers": total_numbers, "number_digits": dict(digits),
             "minbits": dict(minbits), "alphabet_sizes": {str(k): v for k, v in sorted(abc_sizes.items())},
             "generator_types": dict(gen_types), "template_lengths": {str(k): v for k, v in tpl_len.items()},
             "template_parts": dict(tpl_parts), "pid": dict(pid_kinds), "draws_per_generator": dict(draws),
-            "total_generator_draws": total_draws, "recipe_modes": dict(recipe_modes), "recipe_rows": recipe_rows,
+            "total_generator_draws": total_draws, "recipe_modes": dict(recipe_modes), "recipe_rows": recipe_rows, "features": dict(features),
             "outcomes": dict(outcomes)}
 
 
@@ -1200,7 +1357,7 @@ def shrink(case):
             if len(sched) > 1:
                 yield dict(case, schedule=sched[:i] + sched[i + 1:])
         for i, (gi, n) in enumerate(sched):
-            if n > 2:
+            if n > 2 and gi != "flush":
                 yield dict(case, schedule=sched[:i] + [[gi, max(2, n // 4)]] + sched[i + 1:])
     elif kind == "recipe":
         if case["iterations"] > 1:
